@@ -770,6 +770,7 @@ def main():
     from vf.sandbox import run_extra as _run_extra
     from vf.common import seed as _seed, tier as _tier
     _run_extra(run, "vf.history:h_species_reorder", [{"seed": _seed(), "idx": _i} for _i in range(2400 if _tier() == "thorough" else 240)], cpu_budget=60, kind_prefix="history: ")
+    _run_extra(run, "vf.history:h_traj_outputs", [{"seed": _seed(), "idx": _i} for _i in range(2400 if _tier() == "thorough" else 240)], cpu_budget=60, kind_prefix="history: ")
     return run.finish()
 
 
